@@ -15,7 +15,7 @@ def mpi_exe(flavour="asan"):
 
 
 def make_cases(prop, tier, seed, n, variants=(0,), fp_levels=(2, 10, 3, 1, 10), layouts=None, gvts=None, ckpts=None, fault_rates=(0, 40, 0, 16), flavours=("asan",),
-               model_base=None, same_model_group=1):
+               model_base=None, same_model_group=1, burst=0):
     exes = {fl: mpi_exe(fl) for fl in flavours}
     lay = layouts or LAYOUTS
     gv = gvts or [1000, 0, 100000, 300, 20, 5000]
@@ -32,6 +32,8 @@ def make_cases(prop, tier, seed, n, variants=(0,), fp_levels=(2, 10, 3, 1, 10), 
                       # destination laws under which no rank can run far ahead on its own (ring / uniform): with the self-heavy and hot-spot
                       # laws one rank floods the others with speculative traffic and GVT rounds over MPI take seconds (no flow control in the core)
                       "dest": (1, 2, 2)[k % 3]})
+        if burst and k % burst == burst - 2:
+            cases[-1]["env"] = {"VM_FORCE_TS": "3", "VM_FORCE_RNG": "0"}   # burst models, see sim_common.make_cases
     return cases
 
 
@@ -45,8 +47,10 @@ def run_one(c, timeout):
     if c.get("stats"):
         cmd.append(c["stats"])
     env = {"VERIF_OUT": out, "VERIF_MPI_FAULT": str(c["fault"]), "VM_FORCE_DEST": str(c.get("dest", 2)), "OMPI_MCA_btl": "self,vader,tcp", "OMPI_MCA_rmaps_base_oversubscribe": "1"}
+    env.update(c.get("env") or {})
     res = vlib.run_case(cmd, timeout=timeout, env=env,
-                        tag="m%d/%dx%d/ck%d/g%d/p%d/fp%d/v%d/f%d" % (c["mseed"], c["ranks"], c["threads"], c["ckpt"], c["gvt"], c["pseed"], c["fp"], c["variant"], c["fault"]))
+                        tag="m%d/%dx%d/ck%d/g%d/p%d/fp%d/v%d/f%d%s" % (c["mseed"], c["ranks"], c["threads"], c["ckpt"], c["gvt"], c["pseed"], c["fp"], c["variant"], c["fault"],
+                                                                       "/TS=3" if c.get("env") else ""))
     texts = []
     for r in range(c["ranks"]):
         try:
